@@ -255,6 +255,24 @@ def python_kernels(fail, vec):
         if abs(got - want) > 1e-10 * max(1, abs(want)):
             fail('jnrm2', {'offset': ox, 'n': nn, 'got': got,
                            'want': want})
+    # ssqr: x := y o y with the 's' parts stored as diagonals
+    for mnl in (0, 2):
+        for dd in ({'l': 1, 'q': [3, 2], 's': [2, 1]},
+                   {'l': 0, 'q': [2], 's': []}, {'l': 2, 'q': [], 's': [3]}):
+            tot = mnl + dd['l'] + sum(dd['q']) + sum(dd['s'])
+            y0 = vec(tot)
+            x = matrix(vec(tot))
+            misc.ssqr(x, matrix(y0), dd, mnl)
+            want = [t * t for t in y0]
+            o = mnl + dd['l']
+            for q_ in dd['q']:
+                want[o] = sum(t * t for t in y0[o:o + q_])
+                for i in range(1, q_):
+                    want[o + i] = 2.0 * y0[o] * y0[o + i]
+                o += q_
+            if any(abs(a - b) > 1e-10 * max(1, abs(b))
+                   for a, b in zip(list(x), want)):
+                fail('ssqr', {'dims': dd, 'mnl': mnl})
     for mnl in (0, 2):
         x0 = vec(mnl + N)
         got = misc.snrm2(matrix(x0), d, mnl)
